@@ -1178,8 +1178,8 @@ void NifFile::TrimTexturePaths() {
 		if (tex.empty())
 			return tex;
 
-		// Replace multiple slashes or forward slashes with one backslash
-		tex = std::regex_replace(tex, std::regex("/+|\\\\+"), "\\");
+		// Replace any run of slashes and backslashes with one backslash
+		tex = std::regex_replace(tex, std::regex("[/\\\\]+"), "\\");
 
 		// Search for the first occurrence of "\textures\" (only if "textures\" isn't at the start)
 		std::smatch match;
